@@ -41,6 +41,7 @@ def run(ctx):
         ctx.rng.shuffle(order)
         ctx.count("shards_with_shuffled_import_order")
     env = kit.Env(ctx, order=order)
+    kit.aliasing_probe(ctx, env.m, "C05")   # before anything else: what follows runs in a process whose program aliases and updates in place
     m, mdl, pools, rng, orc = env.m, env.mdl, env.pools, ctx.rng, env.orc
     CNF = env.conv.ConversionNotFound
     n = ctx.scale(8000, 300_000)
